@@ -11,6 +11,7 @@ import pyir_circuit
 import pyir_classify
 import pyir_failure
 import pyir_loop
+import pyir_policy
 import pyir_sleep
 import pyir_translate
 
@@ -203,15 +204,55 @@ def loop_tie(chk):
                                "pinned by digest and their meaning is the corresponding Runner.v operation"]}
 
 
+POLICY_THEOREMS = ["call_ir_correct", "async_call_ir_correct", "execute_ir_correct", "async_execute_ir_correct", "policy_seq_ir_correct"]
+
+
+def policy_tie(chk):
+    """Policy / AsyncPolicy .call / .execute (policy/policy.py, policy/async_policy.py, helper methods inlined) -> PyIRP token lists
+    + obligations (coq/templates/PolicyIRProofs.v.in): executing the translated entry point is Policy.policy_call (delivery, trace
+    with exactly the record settle_of names, clock, budget, breaker state), hence every sequence of calls is Policy.policy_seq."""
+    out = os.path.join(chk.workdir, "PolicyIR.v")
+    tpl = os.path.join(common.COQ, "templates", "PolicyIRProofs.v.in")
+    try:
+        prog = pyir_policy.generate(os.path.join(common.REPO, "src"), out, tpl)
+    except pyir_translate.TranslationError as e:
+        return {"ok": False, "stage": "translate", "detail": f"the policy wrappers are outside the translated fragment: {e}"}
+    except (OSError, SyntaxError) as e:
+        return {"ok": False, "stage": "translate", "detail": f"redress/policy/policy.py / async_policy.py could not be read: {e}"}
+    rc, stdout, stderr, wall = common.run(["coqc", "-Q", common.THEORIES, "Redress", "-w", "none", out], 900, cwd=chk.workdir)
+    if rc != 0:
+        where = "PolicyIR.v"
+        m = re.search(r"line (\d+)", stderr)
+        if m:
+            lines = open(out).read().split("\n")
+            for k in range(int(m.group(1)) - 1, -1, -1):
+                mm = re.match(r"\s*(Lemma|Theorem)\s+(\w+)", lines[k])
+                if mm:
+                    where = mm.group(2)
+                    break
+        return {"ok": False, "stage": "proof", "theorem": where,
+                "detail": f"the translated policy wrapper no longer proves equal to Policy.policy_call ({where}): {stderr.strip()[-600:]}",
+                "ir": prog}
+    return {"ok": True, "stage": "done", "theorems": POLICY_THEOREMS, "closed_under_global_context": stdout.count("Closed under the global context"),
+            "seconds": round(wall, 1),
+            "functions": ["Policy.call", "Policy.execute", "Policy._execute_with_retry", "Policy._execute_without_retry",
+                          "Policy._handle_abort_call / _handle_exhausted_call / _handle_exception_call", "Policy._call_without_retry (shape)",
+                          "AsyncPolicy: the same methods"],
+            "pinned_helpers": sorted(pyir_policy.PINS),
+            "not_translated": ["attempt hooks (no-ops), the context managers, RetryPolicy / AsyncRetryPolicy and the decorator (they "
+                               "delegate to Policy; tied by correspondence), the helpers of policy/execution.py and policy_helpers.py "
+                               "listed under pinned_helpers: pinned by digest, their meaning is Policy.do_allow / do_settle / nr_outcome"]}
+
+
 def report(chk, tie, name, searched):
     """shared bookkeeping: coverage, obligations, and the violation when the tie is broken and nothing else was found"""
     key = "source_translation" if "source_translation" not in chk.coverage else f"source_translation_{name}"
     chk.coverage[key] = {k: v for k, v in tie.items() if k != "ir"}
-    n = len(tie.get("theorems") or {"circuit": CIRCUIT_THEOREMS, "classify": CLASSIFY_THEOREMS, "failure": FAILURE_THEOREMS, "sleep": SLEEP_THEOREMS, "loop": LOOP_THEOREMS}.get(name, THEOREMS))
+    n = len(tie.get("theorems") or {"circuit": CIRCUIT_THEOREMS, "classify": CLASSIFY_THEOREMS, "failure": FAILURE_THEOREMS, "sleep": SLEEP_THEOREMS, "loop": LOOP_THEOREMS, "policy": POLICY_THEOREMS}.get(name, THEOREMS))
     chk.coverage["obligations"] = chk.coverage.get("obligations", 0) + n
     if tie["ok"]:
         chk.coverage["discharged"] = chk.coverage.get("discharged", 0) + n
-        mod = {"circuit": "CircuitIR", "classify": "ClassifyIR", "failure": "FailureIR", "sleep": "SleepIR", "loop": "LoopIR"}.get(name, "BudgetIR")
+        mod = {"circuit": "CircuitIR", "classify": "ClassifyIR", "failure": "FailureIR", "sleep": "SleepIR", "loop": "LoopIR", "policy": "PolicyIR"}.get(name, "BudgetIR")
         chk.coverage["theorems"] = list(chk.coverage.get("theorems", [])) + [f"{mod}.{t}" for t in tie["theorems"]]
     elif not chk.violations:
         chk.violation({"kind": "source-translation", "what": tie["detail"], "stage": tie["stage"],
